@@ -627,6 +627,10 @@ func (ex *Exec) modelled(st *State, ref string, fn *types.Func, recv *Val, args 
 		ex.eng.smt.addFunAx("uf_atan", "(and (< 1.2490457 (uf_atan 3.0)) (< (uf_atan 3.0) 1.2490458) (= (uf_atan 0.0) 0.0))")
 		ex.assumption("math.Atan: uninterpreted, monotone, odd, atan(0)=0, atan(3) in (1.2490457, 1.2490458)")
 		return one(&Val{Sh: args[0].Sh, T: r0(), S: "(uf_atan " + args[0].S + ")"})
+	case "math.Trunc":
+		// towards zero
+		x := args[0].S
+		return one(&Val{Sh: args[0].Sh, T: r0(), S: "(ite (>= " + x + " 0.0) (to_real (to_int " + x + ")) (- (to_real (to_int (- " + x + ")))))"})
 	case "math.Floor":
 		return one(&Val{Sh: args[0].Sh, T: r0(), S: "(to_real (to_int " + args[0].S + "))"})
 	case "math.Abs":
@@ -995,7 +999,7 @@ func (ex *Exec) itoaTerm(n string) string {
 func (ex *Exec) ftoaRaw(x, fmtc, prec, bits string) string {
 	ex.eng.smt.declFun("uf_itoa", "(declare-fun uf_itoa (Int) String)")
 	ex.eng.smt.declFun("uf_ftoa", "(declare-fun uf_ftoa (Real Int Int Int) String)")
-	ex.assumption("strconv / fmt: the text of a float is an uninterpreted function of (value, format, precision, bit size); a whole number of magnitude <= 2^53 prints in ('f', -1) as its decimal integer, and in ('g', -1) / %v likewise below 10^6; ('g', -1) equals ('f', -1) for 1e-4 <= |x| < 1e6 and for 0")
+	ex.assumption("strconv / fmt: the text of a float is an uninterpreted function of (value, format, precision, bit size); a whole number of magnitude <= 2^53 prints in ('f', -1) as its decimal integer, a whole number of any magnitude prints in ('f', 0) as its decimal integer, and in ('g', -1) / %v likewise below 10^6; ('g', -1) equals ('f', -1) for 1e-4 <= |x| < 1e6 and for 0")
 	term := "(uf_ftoa " + x + " " + fmtc + " " + prec + " " + bits + ")"
 	if ex.bound > 0 {
 		return term
@@ -1005,6 +1009,9 @@ func (ex *Exec) ftoaRaw(x, fmtc, prec, bits string) string {
 	whole := "(and (is_int " + x + ") (<= (- 9007199254740992.0) " + x + ") (<= " + x + " 9007199254740992.0))"
 	small := "(and (< (- 1000000.0) " + x + ") (< " + x + " 1000000.0))"
 	ex.eng.smt.addAx(name, "(=> (and (= "+fmtc+" 102) (= "+prec+" (- 1)) "+whole+") (= "+name+" (uf_itoa (to_int "+x+"))))")
+	// with precision 0, 'f' prints the exact decimal expansion of the float: for a whole number of any magnitude that
+	// is the decimal integer
+	ex.eng.smt.addAx(name, "(=> (and (= "+fmtc+" 102) (= "+prec+" 0) (is_int "+x+")) (= "+name+" (uf_itoa (to_int "+x+"))))")
 	ex.eng.smt.addAx(name, "(=> (and (= "+fmtc+" 103) (= "+prec+" (- 1)) "+whole+" "+small+") (= "+name+" (uf_itoa (to_int "+x+"))))")
 	// with the shortest precision, 'g' (and so %v) only differs from 'f' by switching to exponent notation
 	// when the decimal exponent is < -4 or >= 6
